@@ -10,6 +10,7 @@ CONSTANTS
   DiscMs = {0, 2000}
   Shuts = {"ready", "never"}
   Graces = {FALSE, TRUE}
+  Errs = {FALSE, TRUE}
   HalfClosed = TRUE
   MaxT = 8000
   KnownSigs = {"C03/Resp/after-final/close-response", "C03/Call/after-final/close-response"}
